@@ -745,8 +745,25 @@ func c04(c *Ctx) {
 						okWhole = true
 					}
 				}
-				if len(defsOf(si, sm.Node(), astx.Obj(si, id))) != 1 {
-					okWhole = false // re-sliced / reassigned
+				// further definitions may only grow it by append(<itself>, …): a re-slice or another value is not the whole
+				for _, d := range defsOf(si, sm.Node(), astx.Obj(si, id)) {
+					if d == nil {
+						continue
+					}
+					dc, isCall := ast.Unparen(d).(*ast.CallExpr)
+					if !isCall {
+						okWhole = false
+						continue
+					}
+					switch astx.Builtin(si, dc) {
+					case "make":
+					case "append":
+						if aid, ok := ast.Unparen(dc.Args[0]).(*ast.Ident); !ok || astx.Obj(si, aid) != astx.Obj(si, id) {
+							okWhole = false
+						}
+					default:
+						okWhole = false
+					}
 				}
 			}
 		}
